@@ -45,6 +45,8 @@ FINDINGS = {
     "C13-removeval-skips-containers": "applyRemoveVal skips every array element that is a map / array parsed from the stored body: on {\"t\":[[1]]}, "
                                       "REMOVE_VAL t <- [1] reports success and removes nothing (the docs: `the first array element whose "
                                       "msgpack-encoded bytes equal Value`); the same value IS removed when it was appended earlier in the same patch",
+    "C13-removeval-all-matches": "applyRemoveVal removes EVERY array element equal to Value: on {\"t\":[1,2,1]}, REMOVE_VAL t <- 1 leaves [2] "
+                                 "(the docs: `the FIRST array element whose msgpack-encoded bytes equal Value` — [2,1])",
     "C13-status-mapping": "classifyPatchError maps a msgpackpatch error class to another PatchFields status than documented "
                           "(CONDITION_NOT_MET / TYPE_MISMATCH / PATH_INVALID for path and invalid-op / ENCODING_NOT_SUPPORTED)",
     "C13-spliced-value-opaque": "a map / array value stored by SET / APPEND / PREPEND / MERGE is an opaque leaf for the rest of the same patch: "
@@ -448,10 +450,15 @@ def _ref_op(t, kind, path, val):
                 except Malformed:
                     want = bytes(val)
                 xs = list(tgt[1])
-                for i, x in enumerate(xs):
-                    if _enc(x) == want:
-                        del xs[i]
-                        break
+                if RMVAL_RULE[0] == "all":          # hypothesis: every match goes
+                    xs = [x for x in xs if _enc(x) != want]
+                else:
+                    for i, x in enumerate(xs):
+                        if RMVAL_RULE[0] == "skip" and x[0] != "L":   # hypothesis: container elements are skipped
+                            continue
+                        if _enc(x) == want:
+                            del xs[i]
+                            break
                 put(hit[1], ("A", xs))
         elif kind == "merge":
             def merged(fs):
@@ -648,6 +655,35 @@ def rmval_container(ops):
     return False
 
 
+# REMOVE_VAL under the documented rule ("doc": the first element whose encoding equals Value) or under one of
+# the two deviations seen in the code's history — used only to NAME the cause of an already established deviation
+RMVAL_RULE = ["doc"]
+RMVAL_CAUSES = (("skip", "C13-removeval-skips-containers"), ("all", "C13-removeval-all-matches"))
+
+
+def rmval_cause(body, cond, ops, observed):
+    """the implementation's outcome `observed` = ("ok", tree) | ("err", status) deviates from the documented one:
+    is it what REMOVE_VAL-skips-containers / REMOVE_VAL-removes-every-match would give?  → finding id | None"""
+    if not any(k == "rmval" for k, _, _ in ops):
+        return None
+    for rule, fid in RMVAL_CAUSES:
+        RMVAL_RULE[0] = rule
+        try:
+            exp = ref_outcome(body, cond, ops)
+        except Opaque:
+            exp = None
+        finally:
+            RMVAL_RULE[0] = "doc"
+        if exp is None or exp[0] != observed[0]:
+            continue
+        if exp[0] == "err":
+            if exp[1] == observed[1]:
+                return fid
+        elif exp[1] == observed[1] or _canon_nan(exp[1]) == _canon_nan(observed[1]):
+            return fid
+    return None
+
+
 def value_malformed(ops):
     """does the op list splice a value that is not exactly one well-formed, string-keyed value?"""
     for k, _, v in ops:
@@ -703,7 +739,7 @@ def oracle_line(op, rep):
             except (Skip, Opaque):
                 return None
             except RefErr as e:
-                fid = "C13-removeval-skips-containers" if rmval_container(ops) else None
+                fid = rmval_cause(body, None, ops, ("ok", got))
                 return (fid, "reported success, but the documented semantics reject the op list (%s)" % e)
             except Malformed:
                 return (None, "reported success on a body / with an output the reference decoder rejects")
@@ -712,12 +748,13 @@ def oracle_line(op, rep):
             if got != t:
                 d = _first_diff(got, t)
                 if d and d[1][0] == "L" and d[2][0] == "L" and _num(d[1][1])[0] and _num(d[2][1])[0] \
-                        and d[1][1][0] != d[2][1][0] and any(k == "inc" for k, _, _ in ops) and not rmval_container(ops):
+                        and d[1][1][0] != d[2][1][0] and any(k == "inc" for k, _, _ in ops) \
+                        and rmval_cause(body, None, ops, ("ok", got)) is None:
                     return (None, "INC does not keep the target's numeric format: at `%s` the output holds %s (code %02x), the documented "
                             "rule gives %s (code %02x)" % (d[0].lstrip("."), d[1][1].hex(), d[1][1][0], d[2][1].hex(), d[2][1][0]))
                 where = " (first difference at `%s`: got %s, expected %s)" % (
                     d[0].lstrip("."), d[1][1].hex() if d[1][0] in ("L", "K") else d[1], d[2][1].hex() if d[2][0] in ("L", "K") else d[2]) if d else ""
-                fid = "C13-removeval-skips-containers" if rmval_container(ops) else None
+                fid = rmval_cause(body, None, ops, ("ok", got))
                 return (fid, "output %s does not decode to the document the documented semantics give%s" % (f[1], where))
         elif rep.startswith("err "):
             return judge_error(body, cond, ops, GROUP.get(rep[4:]), "the patch was rejected with `%s`" % rep)
@@ -771,7 +808,7 @@ def judge_error(body, cond, ops, got_status, what):
     if exp is None:
         return None
     if exp[0] == "ok":
-        fid = "C13-removeval-skips-containers" if rmval_container(ops) else None
+        fid = rmval_cause(body, cond, ops, ("err", got_status))
         return (fid, "the documented semantics apply the op list, but " + what)
     if exp[1] != got_status:
         if exp[1] == 3:
@@ -780,7 +817,7 @@ def judge_error(body, cond, ops, got_status, what):
             return (None, "condition %s IS met by the document (exact integer / IEEE comparison), but the patch was rejected as "
                     "CONDITION_NOT_MET" % ":".join(cond or ()))
         # a skipped container REMOVE_VAL changes what the following ops meet (another error, or an error elsewhere)
-        fid = "C13-removeval-skips-containers" if rmval_container(ops) else None
+        fid = rmval_cause(body, cond, ops, ("err", got_status))
         return (fid, "the documented outcome is %s, but %s" % (STATUS_NAME.get(exp[1], exp[1]), what))
     return None
 
@@ -857,12 +894,20 @@ def judge_pf(op, rep):
             if st == want_st:
                 try:
                     if dec_all(unhex(new)) != out[1]:
-                        fid = "C13-removeval-skips-containers" if rmval_container(ops) else None
+                        fid = rmval_cause(body, cond, ops, ("ok", dec_all(unhex(new))))
                         return (fid, "PatchFields stored %s, which is not the document the documented semantics give" % new)
                 except Malformed:
                     return (None, "PatchFields stored a body the reference decoder rejects: %s" % new)
     if st != want_st:
-        fid = "C13-removeval-skips-containers" if rmval_container(ops) and body is not None else None
+        fid = None
+        if body is not None:
+            obs = ("err", st)
+            if st in (0, 1):
+                try:
+                    obs = ("ok", dec_all(unhex(new)))
+                except Malformed:
+                    obs = None
+            fid = rmval_cause(body, cond, ops, obs) if obs else None
         if fid is None and body is not None and st not in (0, 1) and want_st not in (0, 1, None):
             fid = "C13-status-mapping"      # an op / condition error reported under another status
         return (fid, "PatchFields replied %s (%d), the documented status is %s (%d)" %
@@ -873,8 +918,8 @@ def judge_pf(op, rep):
 def spec_violated(rep):
     for op, line in zip(rep["ops"], rep["impl"]):
         r = oracle_line(op, line)
-        if r is not None and r[0] is None:
-            return r[1]
+        if r is not None:
+            return r[1] if r[0] is None else "%s: %s" % (r[0], r[1])
     return None
 
 
